@@ -16,9 +16,9 @@ type timeT = time.Time
 // slashEval is the shared evaluation of one step in which k >= 1 slashes reached the hooks.
 type slashEval struct {
 	pre, post *Snap
-	model     *ShareState            // Q': pre-state with all slashes applied as implemented (known defects included)
-	scaled    *ShareState            // pre-state with only the bonded cut of the (single) slash applied
-	groups    []*redelGroup          // single-slash steps: the records slashed
+	model     *ShareState   // Q': pre-state with all slashes applied as implemented (known defects included)
+	scaled    *ShareState   // pre-state with only the bonded cut of the (single) slash applied
+	groups    []*redelGroup // single-slash steps: the records slashed
 	single    bool
 	val       string
 	f         *big.Rat
@@ -131,8 +131,8 @@ type monC06 struct {
 	dead bool
 }
 
-func newMonC06() *monC06      { return &monC06{} }
-func (m *monC06) Name() string { return "C06" }
+func newMonC06() *monC06           { return &monC06{} }
+func (m *monC06) Name() string     { return "C06" }
 func (m *monC06) Finish(r *Runner) {}
 
 func (m *monC06) OnStep(r *Runner, st *Step) {
@@ -232,8 +232,8 @@ type monC07 struct {
 	dead bool
 }
 
-func newMonC07() *monC07      { return &monC07{} }
-func (m *monC07) Name() string { return "C07" }
+func newMonC07() *monC07           { return &monC07{} }
+func (m *monC07) Name() string     { return "C07" }
 func (m *monC07) Finish(r *Runner) {}
 
 func (m *monC07) OnStep(r *Runner, st *Step) {
@@ -392,8 +392,8 @@ type monC08 struct {
 	dead bool
 }
 
-func newMonC08() *monC08      { return &monC08{} }
-func (m *monC08) Name() string { return "C08" }
+func newMonC08() *monC08           { return &monC08{} }
+func (m *monC08) Name() string     { return "C08" }
 func (m *monC08) Finish(r *Runner) {}
 
 var probeFractions = []string{"0.0001", "0.05", "1"}
